@@ -156,8 +156,8 @@ type CaseC07 struct {
 	OutT   string   `json:"outt"`
 	InDyn  string   `json:"indyn"` // dynamic type of the graph input when InT is an interface
 	Nodes  []Node07 `json:"nodes"`
-	Order  []int    `json:"order"`  // order in which the connections are added (permutation seed)
-	Stream bool     `json:"stream"` // call through Stream instead of Invoke
+	Order  []int    `json:"order"`            // order in which the connections are added (permutation seed)
+	Stream bool     `json:"stream"`           // call through Stream instead of Invoke
 	StartB string   `json:"startb,omitempty"` // branch from START with this condition type
 }
 
